@@ -40,3 +40,15 @@ Proof. exact wrap_refuted. Qed.
    the scanner in INITIAL, so a parse starts as in a fresh process *)
 Theorem C15_start_condition_reset : forall texts : list (list StartCond.ev), StartCond.session Gen_StartCond.gen_sc StartCond.INITIAL texts = StartCond.INITIAL.
 Proof. exact (StartCond.session_always_initial Gen_StartCond.gen_sc eq_refl). Qed.
+
+(* several documents alive at once, one global counter (MultiDoc.v): whatever models, queries and block texts are parsed on whichever documents in whatever
+   order, no call meets the position index's "positions must increase" exception, because the counter never moves back; a front end that restarts the counter
+   for every model does meet it, on a document that outlives the parse of a shorter model *)
+From Utap Require MultiDoc.
+Theorem C15_interleaved_documents : forall cs : list MultiDoc.call, MultiDoc.w_threw (fold_left (MultiDoc.step false) cs MultiDoc.w0) = false.
+Proof. exact MultiDoc.interleaved_documents_never_throw. Qed.
+Print Assumptions C15_interleaved_documents.
+Theorem C15_counter_restart_refuted : exists cs : list MultiDoc.call, MultiDoc.w_threw (fold_left (MultiDoc.step true) cs MultiDoc.w0) = true.
+Proof. eexists. exact (proj1 MultiDoc.restart_refuted). Qed.
+Print Assumptions C15_counter_restart_refuted.
+
